@@ -72,6 +72,7 @@ class Session:
     def executor(self, intmode, bigw=128, extra=()):
         ex = Exec(self.db, intmode, bigw=bigw)
         ex.contracts = compile_contracts(list(extra), self.extra_contracts) + std_contracts()
+        ex.assert_hooks = [(re.compile(r'StarlarkBigInt::unchecked_new$'), hook_unchecked_new)]
         return ex
 
     def absorb(self, ex):
@@ -97,6 +98,24 @@ class Session:
             self.notes.add('uninterpreted abstractions (divides / mul64) are refined with their definitions whenever a query is sat')
             r, m = self.decider.check(list(conds) + list(refine), lemmas, label=(label or ob.name) + ' (refined)')
         return r, m
+
+
+def hook_unchecked_new(ex, st, args, path, callee):
+    """`debug_assert!(InlineInt::try_from(&value).is_err())` in StarlarkBigInt::unchecked_new: the MIR is emitted with
+    debug assertions off, so the assertion (a panic in the dev profile the suite runs in) is restored here"""
+    v = ex.deref(st['mem'], args[0])
+    while isinstance(v, Struct) and len(v.fields) == 1:
+        v = ex.deref(st['mem'], v.fields[0])
+    if not isinstance(v, Big):
+        return
+    t = v.t
+    if ex.intmode:
+        inside = z3.And(t >= I32_MIN, t <= I32_MAX)
+    else:
+        inside = z3.And(t >= z3.BitVecVal(I32_MIN, t.size()), t <= z3.BitVecVal(I32_MAX, t.size()))
+    bad = path.add(inside)
+    if ex.feasible(bad.conds):
+        ex.add_panic(bad, 'debug_assert: BigInt must be outside of `InlineInt` range (StarlarkBigInt::unchecked_new)', callee)
 
 
 # ----------------------------------------------------------------------------- integer operands
